@@ -141,8 +141,15 @@ def _arr(c):
     return np.array(c["v"], dtype=np.int64).reshape(len(c["v"]), c["w"])
 
 
-def _obj(cols):
-    return _cls([c["n"] for c in cols])(*[_arr(c) for c in cols])
+def _obj(cols, form=0):
+    """the table; its columns given positionally (0), all by keyword (1), or the first positionally and the rest by keyword (2)"""
+    names = [c["n"] for c in cols]
+    arrs = [_arr(c) for c in cols]
+    if form == 1:
+        return _cls(names)(**dict(zip(names, arrs)))
+    if form == 2 and len(cols) >= 2:
+        return _cls(names)(arrs[0], **dict(zip(names[1:], arrs[1:])))
+    return _cls(names)(*arrs)
 
 
 def _entries(obj, names):
@@ -187,7 +194,7 @@ def run_impl(p):
             objs = [_obj(t) for t in p["tables"]]
             return _table(np.concatenate(objs), [c["n"] for c in p["tables"][0]])
         names = [c["n"] for c in p["cols"]]
-        obj = _obj(p["cols"])
+        obj = _obj(p["cols"], (len(str(p["cols"])) % 3) if f == "ctor" else 0)
         if f == "ctor":
             return _table(obj, names)
         if f == "getitem":
